@@ -189,7 +189,7 @@ def case_strategy(draw):
     if any(d["kind"] == "class" for d in chosen_top):
         preserve.add("v")  # the client reads <class>().v: every attribute name the client accesses is a preserved name
     preserve = sorted(preserve)
-    mode = draw(st.sampled_from(["api", "api", "api2", "cli", "cli", "stdin"]))
+    mode = draw(st.sampled_from(["api", "api", "api2", "cli", "cli", "stdin", "cli_dir"]))
     return {"lib": lib, "client": client, "preserve": preserve, "mode": mode,
             "wanted": [[d["owner"], d["name"], d["kind"]] for d in chosen_top + chosen_members]}
 
@@ -263,6 +263,31 @@ def rewrite(case):
     d = tempfile.mkdtemp(prefix="vf_c08_")
     cwd = os.getcwd()
     try:
+        if case["mode"] == "cli_dir":
+            # directories on both sides: the library sits in a package folder next to a second module (folder-level pass
+            # bookkeeping), the client in a nested folder of the preserved directory next to an unrelated file
+            os.makedirs(os.path.join(d, "pkg"))
+            os.makedirs(os.path.join(d, "clients", "sub"))
+            files = {"pkg/lib.py": lib, "pkg/other.py": "import os\nimport sys\n\n\ndef unused_helper(a):\n    b = a\n    return b\n\n\nprint(os.sep)\n",
+                     "pkg/__init__.py": "", "clients/sub/client.py": case["client"], "clients/unrelated.py": "value = 1\nprint(value.real)\n"}
+            for rel, text in files.items():
+                with open(os.path.join(d, rel), "w") as fh:
+                    fh.write(text)
+            os.chdir(d)
+
+            def go_dir(_):
+                with contextlib.redirect_stdout(io.StringIO()), contextlib.redirect_stderr(io.StringIO()):
+                    main.main([os.path.join(d, "pkg"), "--preserve", os.path.join(d, "clients"), "--n_cores", "2"])
+                with open(os.path.join(d, "pkg", "lib.py")) as fh:
+                    return fh.read()
+
+            status, out, _ = progcheck.run_tool(go_dir, lib)
+            if status == "ok":
+                for rel in ("clients/sub/client.py", "clients/unrelated.py"):
+                    with open(os.path.join(d, rel)) as fh:
+                        if fh.read() != files[rel]:
+                            return "client-modified", None
+            return status, out
         with open(os.path.join(d, "lib.py"), "w") as fh:
             fh.write(lib)
         with open(os.path.join(d, "client.py"), "w") as fh:
@@ -310,7 +335,7 @@ def evaluate(case, info=None):
     if status == "client-modified":
         fail("preserved-file-modified", "the file passed with --preserve was rewritten")
         return fails
-    if status == "crash" and case["mode"] in ("cli", "stdin"):
+    if status == "crash" and case["mode"] in ("cli", "stdin", "cli_dir"):
         api = rewrite({**case, "mode": "api"})
         if api[0] == "ok":
             fail("command-line-crash:" + env.exc_bucket(out), f"{out!r} (format_code with the same preserve set succeeds)")
